@@ -186,6 +186,11 @@ fn bar_op(rng: &mut Rng, b: u64, w: usize, special: bool, fl: Flavor) -> Op {
     if fl == Flavor::C16 {
         // texts with tabs; tab width changes
         if rng.chance(1, 4) {
+            if rng.chance(1, 60) {
+                // far wider than any terminal: the getters still return every tab as that many
+                // spaces (the frame then leaves the scope of the layout rules)
+                return Op::new("set_tab_width").n(b).n(*rng.pick(&[65_535, 65_536, 100_000]));
+            }
             return Op::new("set_tab_width").n(b).n(*rng.pick(&[0, 1, 2, 4, 8, 8, 13, 0, 1, 2, 4, 8, 13, 33, 70]));
         }
         if rng.chance(1, 8) {
